@@ -375,7 +375,7 @@ pub fn run(ctx: &mut Ctx) {
     );
     if ctx.tier == Tier::Thorough {
         // all 24 suit permutations for a sample of configurations
-        let cases = 2_400u64;
+        let cases = 600u64;
         ctx.run_random_brief(
             StreamCfg::new("all_24_relabellings", CLASSES, cases).shrink(100),
             || strategy(300_000u128, false),
